@@ -24,7 +24,7 @@ RULE = ('ordered pairs (a,b) of one kind or with one blank, evaluated for all si
         'additionally tagged when they differ only in the fraction or in sign; distinct = distinct (a,b,via) JSON')
 ASSUMPTIONS = ['text ordering is only checked against the laws, not against a specific collation',
                'mixed-kind pairs other than blank-vs-value are not asserted',
-               'blank vs negative numbers is not asserted (the statement is silent)']
+               'a blank cell against a number is judged as the number 0 (the statement: a blank cell equals 0)']
 
 OPS = ['<', '<=', '=', '>=', '>', '<>']
 BLANK = {'$blank': True}
@@ -122,7 +122,7 @@ def expected_table(a, b):
         v, kv = (b, kb) if ka == 'blank' else (a, ka)
         c = None
         if kv == 'number':
-            c = 0 if v == 0 else (-1 if v > 0 else None)
+            c = (0 > v) - (0 < v)      # a blank cell equals 0: against a number it is the number 0
         elif kv == 'text':
             # numeric-looking texts are numbers to this library (pinned test test_compare_str_as_number),
             # so "blank < every non-empty text" is asserted for the other texts only; laws still apply
